@@ -27,13 +27,13 @@ TICK = Fraction(1, 48)
 
 
 def anchors():
-    from simfile.timing import engine as E
+    from ..core import pick
 
-    return {
-        "TimingEngine.beat_at": E.TimingEngine.beat_at,
-        "TimingState.beats_until": E.TimingState.beats_until,
-        "TimingEngine._retime_events": E.TimingEngine._retime_events,
-    }
+    return pick(
+        "simfile.timing.engine:TimingEngine.beat_at",
+        "simfile.timing.engine:TimingState.beats_until",
+        "simfile.timing.engine:TimingEngine._retime_events",
+    )
 
 
 def cases(ctx):
